@@ -288,9 +288,28 @@ func (r *PaginatedResourceRepository[ResourceType, OptionsType]) Paginate(
 		if v.Column == "" || v.Order == nil {
 			return nil, NewErrInvalidQuery("invalid cursor: missing column or order")
 		}
+		// ... or name a column this resource cannot be sorted on
+		_, field := r.resourceHandler.Schema().GetFieldByNameOrAlias(v.Column)
+		if field == nil {
+			return nil, NewErrInvalidQuery("invalid property '%s' for pagination", v.Column)
+		}
+		if !field.IsPaginated {
+			return nil, newErrNotPaginatedField(v.Column)
+		}
 	case ColumnPaginatedQuery[OptionsType]:
 		if v.Column == "" || v.Order == nil {
 			return nil, NewErrInvalidQuery("invalid cursor: missing column or order")
+		}
+		_, field := r.resourceHandler.Schema().GetFieldByNameOrAlias(v.Column)
+		if field == nil {
+			return nil, NewErrInvalidQuery("invalid property '%s' for pagination", v.Column)
+		}
+		if !field.IsPaginated {
+			return nil, newErrNotPaginatedField(v.Column)
+		}
+		if !field.Type.IsPaginated() {
+			// a column whose values are not numbers or dates is paginated by offset
+			return nil, NewErrInvalidQuery("invalid cursor: property '%s' is not paginated by value", v.Column)
 		}
 	case InitialPaginatedQuery[OptionsType]:
 
